@@ -178,6 +178,15 @@ func (p *Program) verifyFunction(name string) (enc *Enc, err error) {
 			enc.extras = append(enc.extras, tr.useInstance(u)...)
 		}
 	}
+	if con != nil && con.HasAssigns {
+		if _, ok := con.Checks["frame"]; ok {
+			locs, _, aerr := p.assignLocs(con, fn.Signature)
+			if aerr != nil {
+				return nil, fmt.Errorf("%s: %v", name, aerr)
+			}
+			f.installFrameChecks(locs, alloc0)
+		}
+	}
 	pathIn := enc.define("ENTRY", And(entry...))
 	enc.obls = append(enc.obls, &Obl{Name: "cover:entry", Class: "cover", Func: name, Path: pathIn, Cond: True, Cover: true, Pos: p.pos(fn.Pos())})
 	results, outSt, outPath, ok := f.run(args, State{}, pathIn)
